@@ -33,6 +33,7 @@ def check(run):
     _memo_paths(run, P, P.func("uxarray/grid/grid.py:Grid.compute_face_areas"))
     params = [p for p in f.params() if p != "self"]
     _options_forwarded(run, P)
+    _options_not_rewritten(run, P)
     _data_not_modified(run, P)
     # (b) einsum
     ein = [c for c in ast.walk(f.node) if isinstance(c, ast.Call) and (dotted(c.func) or [""])[-1] == "einsum"]
@@ -165,6 +166,30 @@ def _options_forwarded(run, P):
                 run.holds("F-PATH/area-provenance", c, where(f, roles[0][0]), f"{p_} forwarded as {p_}")
             else:
                 run.incomplete("F-PATH/area-provenance", c, where(f), f"{p_} is read but not seen to reach compute_face_areas / integrate")
+
+
+def _options_not_rewritten(run, P):
+    """Inside the area module the requested rule and order reach the table getters as they were given: neither `order` nor `quadrature_rule` is rebound on the way
+    (a "snap to the next tabulated order" helper is a second table of supported orders that has to agree with the getters' own branches - not decided, so not accepted silently)."""
+    from ..astutil import LocalDefs
+    n = 0
+    for f in P.all_functions():
+        if f.module.relpath != "uxarray/grid/area.py":
+            continue
+        ps = [p for p in f.params() if p in ("order", "quadrature_rule")]
+        if not ps:
+            continue
+        defs = LocalDefs(f.node)
+        for p_ in ps:
+            n += 1
+            c = f"{f.key}:option-unchanged[{p_}]"
+            rebinds = [v for v, _i, _l in defs.defs.get(p_, []) if not (isinstance(v, ast.Name) and v.id == p_)]      # `order = order` is a no-op
+            if rebinds:
+                v = rebinds[0]
+                run.incomplete("F-PATH/area-provenance", c, where(f, v), f"{p_} is rebound to `{norm(v)[:60]}` before it selects the quadrature table: which orders/rules that maps onto which is not decided")
+            else:
+                run.holds("F-PATH/area-provenance", c, where(f), f"{p_} selects the table as requested")
+    run.floor("F-PATH/area-provenance/options-in-area", n, 4)
 
 
 def _data_not_modified(run, P):
